@@ -6,7 +6,7 @@ ASSUMPTIONS = [
     "objects of capacity <= NARY digits are whole `struct bint`s with sentinel-filled slack: a store beyond placea is detected through the sentinel (for every sentinel value), a LOAD beyond placea but inside the struct is not detected as a memory error (it would make the value postcondition fail if the value matters)",
     "TimesStep/TimesDouble identities are stated in 64-bit unsigned arithmetic; that (2^32-1)^2 + 2(2^32-1) = 2^64-1 does not wrap is a pencil-and-paper fact, not a solver result",
     "right shifts and bit tests are specified on the magnitude (sign-magnitude, quotient by 2^n truncated toward zero), as the property's rule for quotients; bintBit on a negative number tests |b| (the code's own '!! This should handle negative numbers' is not resolved by the property text)",
-    "bintPlus/bintMinus are verified modularly: each body against its contract with the recursive call and the call of the other replaced by the contract (partial correctness; termination of the mutual recursion - depth <= 2 by reading - is not proved)",
+    "bintPlus/bintMinus: real bodies inlined, one job per operand shape x sign case, re-entries bounded by --unwindset with recursion unwinding assertions (so the bound is proved, not assumed); quick tier runs stored x stored for three sign cases and immediate x immediate non-negative, the thorough tier all 16 cases per function",
     "class B jobs: every operand has at most 3 digits (96 bits), all digit values, signs, lengths and capacities symbolic; nothing is claimed beyond that size",
     "UNDECIDED, not claimed: the arithmetic identities of iintTimes, iintTimesS, iintTimesPlusS, iintDivide, iintDivideS, bintTimes (general path), bintDivide (a = q*b + r, truncation, sign of remainder), bintMod/bintModi, xxTimesDouble/xxDivideDouble/xxModDouble, fiBIntGcd, fiBIntSIPower/BIPower/PowerMod, bintToString/bintIntoString, bintFrString/bintScanFrString/bintRadixScanFrString: 64-bit multiplier/divider equivalences are beyond the SAT back end (probed: 2x2-digit product, DivideDouble re-multiplied, 120-900 s without result)",
     "signed overflow is not checked (framework default): xintStoreI/xintCopyInI/intLength/intBit negate LONG_MIN, which wraps to itself under CBMC and gcc and gives the exact result, but is undefined behaviour in ISO C",
@@ -149,17 +149,25 @@ def jobs(tier):
     J("canary.bint.bintNegate", "h_bintNegate_s", ["bintNegate"], bk("a")[:-1], cls="B", bound=B3, unwind=UB,
       defs=["-DCANARY_bintNegate"], kind="canary", timeout=240)
 
-    # sum and difference: modular (see ASSUMPTIONS)
+    # sum and difference: real bodies inlined, one job per operand shape and sign case (see bigint_h.c);
+    # recursion bounded per case, the recursion unwinding assertions prove the bound complete.
     INL = ["xintStore", "xintStoreI", "xintCopyInI", "bintIsNeg", "bintLength", "bintAlloc", "bintAllocPlaces",
-           "xintImmedIfCan", "bintFree", "bintLT"]
-    for f, other, leaf in (("bintPlus", "bintMinus", "iintPlus"), ("bintMinus", "bintPlus", "iintMinus")):
+           "xintImmedIfCan", "bintFree", "bintLT", "iintPlus", "iintMinus"]
+    SGN = {0: "nonneg_nonneg", 1: "neg_nonneg", 2: "nonneg_neg", 3: "neg_neg"}
+    for f, me, other in (("bintPlus", "bintPlus", "bintMinus"), ("bintMinus", "bintMinus", "bintPlus")):
         for k, kn in KK:
-            J("bint.%s.%s" % (f, kn), "h_%s_%s" % (f, k), [f, leaf] + INL, bk("a")[:-1] + bk("b0")[:-1] + ["same"],
-              cls="P" if k == "ii" else "B", bound=None if k == "ii" else B3,
-              enforce=E(f), replace=E(other), rec=True, unwind=UB, timeout=280, checks=NOPTR)
-        J("canary.bint." + f, "h_%s_ss" % f, [f], bk("a")[:-1] + bk("b0")[:-1] + ["same"], cls="B", bound=B3,
-          enforce=E(f), replace=E(other), rec=True, unwind=UB, timeout=280, checks=NOPTR,
-          defs=["-DCANARY_" + f], kind="canary")
+            for sg in (0, 1, 2, 3):
+                quick = (k == "ss" and sg in (0, 1, 2)) or (k == "ii" and sg == 0)
+                if not quick and tier != "thorough":
+                    continue
+                re_me = 1 if sg == 3 else 0          # both negative: one re-entry of the same function
+                J("bint.%s.%s.%s" % (f, kn, SGN[sg]), "h_%s_%s_sg%d" % (f, k, sg), [f, other] + INL,
+                  bk("a")[:-1] + bk("b0")[:-1] + ["same"], cls="P" if k == "ii" else "B", bound=None if k == "ii" else B3,
+                  unwind=["--slice-formula"] + UW(6, "uintLength.0:66", "%s:%d" % (me, re_me), "%s:0" % other),
+                  timeout=280 if tier != "thorough" else 1500, mem_gb=14)
+        J("canary.bint." + f, "h_%s_ss_sg1" % f, [f], bk("a")[:-1] + bk("b0")[:-1] + ["same"], cls="B", bound=B3,
+          unwind=["--slice-formula"] + UW(6, "uintLength.0:66", "%s:0" % me, "%s:0" % other),
+          timeout=280, mem_gb=14, defs=["-DCANARY_" + f], kind="canary")
 
     # products that have a cheap exact formulation
     J("bint.bintTimes.half_range_immediates", "h_bintTimes_half", ["bintTimes"], ["x", "y"], unwind=UB,
@@ -181,4 +189,19 @@ def jobs(tier):
       defs=["-DCANARY_bintShift"], kind="canary", timeout=280)
     J("bint.bintFrPlacev", "h_bintFrPlacev", ["bintFrPlacev", "xintImmedIfCan"] + ALLOC, ["neg", "pc", "data_d0", "data_d1", "data_d2", "data_d3"],
       cls="B", bound="<= 3 digits", unwind=UB)
+
+    # ------------------------------------------------------------------------------------------------
+    # class P in the number of digits: memory safety of the index loops via spliced loop contracts
+    # (exact-size objects, placea symbolic, harness objects capped at 2^10 digits, loops closed by their contracts and not unwound; no value is claimed)
+    MEM = (("bintEQ", ["a", "b"], []), ("bintLT", ["a", "b"], []), ("bintGT", ["a", "b"], []),
+           ("bintCopy", ["a"], []), ("iintAbs", ["a", "r0"], ["alias"]), ("iintNegate", ["a", "r0"], ["alias"]),
+           ("iintPlus", ["a", "b", "r0"], ["alias"]), ("iintMinus", ["a", "b", "r0"], ["alias"]),
+           ("iintTimesS", ["a", "r0"], ["alias", "d"]), ("iintTimesPlusS", ["a", "r0"], ["alias", "d", "c"]),
+           ("iintDivideS", ["a", "q0"], ["alias", "d"]), ("xintNeeds", ["b"], ["bitc"]))
+    for f, objs, extra in MEM:
+        ins = [o + "_" + x for o in objs for x in ("neg", "pa", "pc")] + extra
+        js.append({"name": "mem.%s.any_length" % f, "src": "bigint_mem_h.c", "entry": "m_" + f, "functions": [f],
+                   "inputs": ins, "cls": "P", "kind": "obligation", "checks": NOPTR, "native": True,
+                   "splice": {"bigint.c": "bigint.json"}, "loops": True, "timeout": 240,
+                   "cbmc": ["--unwind", "3", "--unwinding-assertions"]})
     return js
